@@ -1,10 +1,12 @@
 #!/bin/bash
-# tools/try_seed.sh <seed_id> <CHECK_ID> [tier]  -- applies seeded/<seed_id>/patch.diff to /repo, runs the check, reverts.
+# tools/try_seed.sh <seed_id> <CHECK_ID> [tier]  -- applies seeded/<seed_id>/patch.diff to a tree (TRY_REPO, default /repo), runs the check
+# against that tree, reverts.
 SID=$1; CID=$2; TIER=${3:-quick}
-cd /repo || exit 2
-if [ -n "$(git status --porcelain --untracked-files=no)" ]; then echo "/repo not clean"; exit 2; fi
+R=${TRY_REPO:-/repo}
+cd $R || exit 2
+if [ -n "$(git status --porcelain --untracked-files=no)" ]; then echo "$R not clean"; exit 2; fi
 git apply /verif/seeded/$SID/patch.diff || exit 2
-(cd /verif && ./check $CID --tier $TIER --no-evidence 2>&1 | tail -${LINES_OUT:-6}); 
-git -C /repo checkout -q -- .
-find /repo -name __pycache__ -type d -prune -exec rm -rf {} + 2>/dev/null
-[ -z "$(git status --porcelain --untracked-files=no)" ] || echo "WARNING: /repo still dirty"
+(cd /verif && VERIF_REPO=$R ./check $CID --tier $TIER --no-evidence 2>&1 | tail -${LINES_OUT:-6});
+git -C $R checkout -q -- .
+find $R -name __pycache__ -type d -prune -exec rm -rf {} + 2>/dev/null
+[ -z "$(git status --porcelain --untracked-files=no)" ] || echo "WARNING: $R still dirty"
